@@ -215,6 +215,69 @@ func (fv *FuncVer) assumeInvariants(st *State, spec *LoopSpec, f *Frame) {
 	}
 }
 
+// assumeRangeBounds: the hidden index of a range-over-slice loop stays within
+// [-1, len-1] at the loop header. This is a structural fact of the SSA lowering
+// (the index starts at -1 and is only advanced by the header itself, which
+// leaves the loop as soon as index+1 reaches len), not a user invariant.
+func (fv *FuncVer) assumeRangeBounds(st *State, f *Frame, li *loopInfo) {
+	for _, ins := range li.header.Instrs {
+		cmp, ok := ins.(*ssa.BinOp)
+		if !ok || cmp.Op != token.LSS {
+			continue
+		}
+		add, ok := cmp.X.(*ssa.BinOp)
+		if !ok || add.Op != token.ADD {
+			continue
+		}
+		ld, ok := add.X.(*ssa.UnOp)
+		if !ok || ld.Op != token.MUL {
+			continue
+		}
+		a, ok := ld.X.(*ssa.Alloc)
+		if !ok || a.Comment != "rangeindex" {
+			continue
+		}
+		if k, ok := add.Y.(*ssa.Const); !ok || k.Value == nil || k.Value.ExactString() != "1" {
+			continue
+		}
+		call, ok := cmp.Y.(*ssa.Call)
+		if !ok {
+			continue
+		}
+		if b, ok := call.Call.Value.(*ssa.Builtin); !ok || b.Name() != "len" {
+			continue
+		}
+		// the only stores to the index are the initialisation and the header's own increment
+		for _, ref := range *a.Referrers() {
+			if s, ok := ref.(*ssa.Store); ok && s.Addr == a {
+				if s.Block() == li.header && s.Val == add {
+					continue
+				}
+				if !li.body[s.Block()] {
+					continue
+				}
+				return
+			}
+		}
+		lv, ok := f.regs[a].(*Loc)
+		if !ok {
+			return
+		}
+		cur, ok := fv.load(st, lv).(*Term)
+		if !ok {
+			return
+		}
+		n, ok := f.regs[call].(*Term)
+		if !ok {
+			return
+		}
+		c := fv.ctx
+		st.assume(c.WLe(c.WLit(-1), cur))
+		st.assume(c.WLt(cur, n))
+		return
+	}
+}
+
 // ---------------------------------------------------------------------------
 // loop-modified state
 
@@ -233,7 +296,8 @@ type modSet struct {
 	calls     map[string]bool // names of everything that may be called inside the loop
 }
 
-func (fv *FuncVer) havocLoop(st *State, f *Frame, li *loopInfo) {
+// loopMods: what the body of the loop may modify (static scan from the entry state).
+func (fv *FuncVer) loopMods(st *State, f *Frame, li *loopInfo) (*modSet, []*ssa.BasicBlock) {
 	ms := &modSet{cells: map[cellKey]bool{}, heaps: map[string]bool{}, alias: map[ssa.Value]aliasRef{}, calls: map[string]bool{}}
 	visited := map[*ssa.Function]bool{}
 	var blocks []*ssa.BasicBlock
@@ -242,6 +306,81 @@ func (fv *FuncVer) havocLoop(st *State, f *Frame, li *loopInfo) {
 	}
 	sort.Slice(blocks, func(i, j int) bool { return blocks[i].Index < blocks[j].Index })
 	fv.collectMods(st, f, blocks, ms, visited, f.bindings)
+	return ms, blocks
+}
+
+func (ms *modSet) heapKeys() []string {
+	if ms.all {
+		return nil
+	}
+	var hks []string
+	for k := range ms.heaps {
+		hks = append(hks, k)
+	}
+	sort.Strings(hks)
+	return hks
+}
+
+// loopFrame: for a function with an `assigns` clause, every loop carries the implicit
+// invariant that objects which existed at function entry and are outside the clause are
+// unchanged in the stores the loop may write. phase: "entry"/"preserve" check it, "assume"
+// adds it after the havoc. Without it the frame of a function with loops cannot be proved.
+func (fv *FuncVer) loopFrame(st *State, f *Frame, key, phase string, hks []string) {
+	if fv.block == nil || st.old == nil || len(hks) == 0 {
+		return
+	}
+	as, ok := fv.block.Flags["assigns"]
+	if !ok {
+		return
+	}
+	env := fv.frameEnv(st, f)
+	allowed := map[string]bool{}
+	var pts []pointee
+	for _, k := range fv.parseAssigns(as, env) {
+		if k == "*" {
+			return
+		}
+		if strings.HasPrefix(k, "pointee|") {
+			pts = append(pts, fv.pointees[k])
+			continue
+		}
+		allowed[k] = true
+	}
+	nr0 := st.old.nextRef
+	for _, k := range hks {
+		cur, ok1 := st.heaps[k]
+		old, ok2 := st.old.heaps[k]
+		if !ok1 || !ok2 || allowed[k] || (phase != "assume" && sameTerm(cur, old)) {
+			continue
+		}
+		r := BoundVar("r_q", SInt)
+		guard := []*Term{ILe(IntLit(0), r), ILt(r, nr0)}
+		for _, p := range pts {
+			if p.key == k {
+				guard = append(guard, Not(Eq(r, p.ref)))
+			}
+		}
+		fml := Forall([]*Term{r}, Implies(And(guard...), Eq(Select(cur, r), Select(old, r))), Select(cur, r))
+		if phase == "assume" {
+			st.assume(fml)
+		} else {
+			fv.oblige(st, "loop:"+key+"/"+phase+"[frame:"+k+"]", "", token.NoPos, fml, "objects of "+k+" that existed at entry are unchanged by the loop (assigns "+as+")")
+		}
+	}
+}
+
+func (fv *FuncVer) havocLoop(st *State, f *Frame, li *loopInfo, ms *modSet, blocks []*ssa.BasicBlock) {
+	// the body may allocate: advance the allocation counter BEFORE any fresh value is made, so
+	// that the well-formedness facts of havocked variables (slice base < next reference) refer to
+	// the counter after the loop's allocations and not to the one on entry
+	{
+		nr := fv.ctx.Fresh("nr", SInt)
+		st.assume(IGe(nr, st.nextRef))
+		if nr.Sym != nil {
+			nr.Sym.Lower = st.nextRef
+		}
+		st.nextRef = nr
+	}
 	if ms.all {
 		fv.havocAll(st, "loop body with unknown effects")
 	}
